@@ -397,3 +397,104 @@ package storage
 //@   requires s.cs != nil
 //@   modifies nothing
 //@   ensures result == s.cs.Version      // C09.version
+
+// ---------------------------------------------------------------- block commit: the cache is written to the tree, then saved as a new version
+
+// itroot(it): the session cache an Iterable obtained from a cache layer walks; itcount: length of any other iteration
+//@ model itroot(Iterable) *sessionCache
+//@ model itcount(Iterable) int
+//@ repr itroot(self *sessionCache) = self
+
+//@ interface SessionedDirectStorage
+//@   method GetIterable
+//@     requires root(self) != nil
+//@     modifies nothing
+//@     ensures result != nil && dyntype(result, "*sessionCache") && itroot(result) == root(self)       // C09.write-order
+
+//@ func (*sessionCache).GetIterable
+//@   implements SessionedDirectStorage
+//@   modifies nothing
+
+// Iterate over a session cache visits its keys in first-write order (assumed for the interface: the cache's own loop is
+// `for _, k := range c.keys`, see the assumed contract of (*sessionCache).Iterate above)
+//@ interface Iterable
+//@   method Iterate
+//@     iterator
+//@     modifies nothing
+//@     count dyntype(self, "*sessionCache") ? len(itroot(self).keys) : itcount(self)
+//@     yields dyntype(self, "*sessionCache") ==> 0 <= $n && $n < len(itroot(self).keys) && str(y0) == itroot(self).keys[$n] && !isnil(y0) && has(itroot(self).store, itroot(self).keys[$n]) && y1 == itroot(self).store[itroot(self).keys[$n]]
+
+//@ func (State).Write
+//@   requires s.cs != nil && s.cache != nil && root(s.cache) != nil && wfl(s.cache)
+//@   assumes wfl(s.cache) ==> wfSC(root(s.cache))                                        // A-REPFRAME the abstract well-formedness token of a cache layer stands for the concrete invariant of its root session cache
+//@   modifies treeHas(s.cs), treeVal(s.cs)
+//@   invariant iter1: forall k string :: (has(root(s.cache).store, k) && kidx(root(s.cache))[k] < $n) ==> (treeHas(s.cs)[k] == !tomb(root(s.cache).store[k]) && (!tomb(root(s.cache).store[k]) ==> treeVal(s.cs)[k] == root(s.cache).store[k]))   // C09.commit-persists
+//@   invariant iter1: forall k string :: !(has(root(s.cache).store, k) && kidx(root(s.cache))[k] < $n) ==> (treeHas(s.cs)[k] == old(treeHas(s.cs))[k] && treeVal(s.cs)[k] == old(treeVal(s.cs))[k])   // C09.commit-persists
+//@   invariant iter1: !$stopped                                                                                                  // C09.commit-persists
+//@   ensures forall k string :: has(root(s.cache).store, k) ==> (treeHas(s.cs)[k] == !tomb(root(s.cache).store[k]) && (!tomb(root(s.cache).store[k]) ==> treeVal(s.cs)[k] == root(s.cache).store[k]))   // C09.commit-persists
+//@   ensures forall k string :: !has(root(s.cache).store, k) ==> (treeHas(s.cs)[k] == old(treeHas(s.cs))[k] && treeVal(s.cs)[k] == old(treeVal(s.cs))[k])   // C09.commit-persists
+
+// ---------------------------------------------------------------- versions (IAVL assumed: T-IAVL)
+//
+// tree-level models on *iavl.MutableTree: working tree (ivHas/ivVal), last saved version number, saved versions
+// (ivVer[v][k], nil-bytes if absent) and which of them are still retained (ivKept[v]).
+//@ model ivHas(MutableTree) array[string]bool
+//@ model ivVal(MutableTree) array[string]bytes
+//@ model ivVersion(MutableTree) int
+//@ model ivVer(MutableTree) array[int]array[string]bytes
+//@ model ivKept(MutableTree) array[int]bool
+//@ repr treeHas(self *ChainState) = ivHas(self.Delivered)
+//@ repr treeVal(self *ChainState) = ivVal(self.Delivered)
+//@ repr verVal(self *ChainState) = ivVer(self.Delivered)
+
+// snapOf(h, v)[k]: the value a saved version returns for k: v[k] if present, nil-bytes otherwise
+//@ ghost func snapOf(h array[string]bool, v array[string]bytes) array[string]bytes
+//@ axiom forall h array[string]bool, v array[string]bytes, k string :: snapOf(h, v)[k] == (h[k] ? v[k] : bytes_nil())   // T-IAVL.snapshot
+//@ ghost func bytes_nil() bytes = nilbytes()
+
+//@ assume func github.com/tendermint/iavl.(*MutableTree).SaveVersion
+//@   modifies ivVersion(self), ivVer(self), ivKept(self)
+//@   ensures result2 == nil ==> result1 == old(ivVersion(self)) + 1 && ivVersion(self) == result1 && ivKept(self) == old(ivKept(self))[result1 := true] && ivVer(self) == old(ivVer(self))[result1 := snapOf(ivHas(self), ivVal(self))]
+//@   ensures result2 != nil ==> ivVersion(self) == old(ivVersion(self)) && ivKept(self) == old(ivKept(self)) && ivVer(self) == old(ivVer(self))
+
+//@ assume func github.com/tendermint/iavl.(*MutableTree).DeleteVersion
+//@   modifies ivKept(self)
+//@   ensures forall v int :: v != version ==> ivKept(self)[v] == old(ivKept(self))[v]
+
+//@ func (*ChainState).Commit
+//@   requires state != nil && state.Delivered != nil && state.ChainStateRotation.recent >= 0 && state.ChainStateRotation.every >= 0 && state.ChainStateRotation.cycles >= 0 && state.Version == ivVersion(state.Delivered) && state.Version >= 0 && state.Version < 9223372036854775807 && state.ChainStateRotation.cycles * state.ChainStateRotation.every <= 9223372036854775807
+//@   modifies state.LastVersion, state.Version, state.LastHash, state.Hash, ivVersion(state.Delivered), ivVer(state.Delivered), ivKept(state.Delivered)
+//@   ensures result1 == state.Version && state.Version == old(ivVersion(state.Delivered)) + 1 && state.LastVersion == old(state.Version)      // C09.commit-version
+//@   ensures verVal(state)[state.Version] == snapOf(old(treeHas(state)), old(treeVal(state)))                                                  // C09.commit-version
+//@   ensures forall v int :: v != state.Version ==> verVal(state)[v] == old(verVal(state))[v]                                                  // C09.versions-immutable
+//@   ensures treeHas(state) == old(treeHas(state)) && treeVal(state) == old(treeVal(state))                                                    // C09.commit-version
+//@   ensures state.Version == ivVersion(state.Delivered)                                                                                       // C09.commit-version
+//@   ensures ivKept(state.Delivered)[state.Version]                                                                                            // C09.rotation-keeps-recent
+//@   ensures forall v int :: v > old(state.Version) - state.ChainStateRotation.recent && v != state.Version ==> ivKept(state.Delivered)[v] == old(ivKept(state.Delivered))[v]   // C09.rotation-keeps-recent
+
+//@ func (*ChainState).SetupRotation
+//@   requires state != nil
+//@   modifies state.ChainStateRotation
+//@   ensures result == nil ==> state.ChainStateRotation.recent >= 0 && state.ChainStateRotation.every >= 0 && state.ChainStateRotation.cycles >= 0    // C09.rotation-config
+
+//@ func NewSessionCache
+//@   modifies nothing
+//@   update wfl(result) := wfSC(result)
+//@   ensures result != nil && fresh(result) && wfSC(result) && wfl(result) && (forall k string :: !has(result.store, k)) && fresh(result.store) && fresh(result.done)   // C09.new-cache
+
+//@ func NewSessionedDirectStorage
+//@   modifies nothing
+//@   update wfl(result) := flavor == SESSION_CACHE && dyntype(result, "*sessionCache") && wfSC(unbox(result, "*sessionCache"))
+//@   ensures flavor == SESSION_CACHE ==> result != nil && dyntype(result, "*sessionCache") && fresh(result) && wfl(result) && root(result) != nil && refof(result) == root(result) && kvmap(result) != nil && fresh(kvmap(result)) && kvmap(result) == root(result).store && (forall k string :: !has(kvmap(result), k))   // C09.new-cache
+
+// block commit: the cache is written to the tree, replaced by an empty one, and the tree is saved as a new version
+//@ func (*State).Commit
+//@   requires wfState(s) && s.cs.Delivered != nil && s.cs.ChainStateRotation.recent >= 0 && s.cs.ChainStateRotation.every >= 0 && s.cs.ChainStateRotation.cycles >= 0 && s.cs.Version == ivVersion(s.cs.Delivered) && s.cs.Version >= 0 && s.cs.Version < 9223372036854775807 && s.cs.ChainStateRotation.cycles * s.cs.ChainStateRotation.every <= 9223372036854775807
+//@   assumes wfl(s.cache) ==> wfSC(root(s.cache))                                        // A-REPFRAME the abstract well-formedness token of a cache layer stands for the concrete invariant of its root session cache
+//@   modifies s.cache, s.txSession, s.cs.LastVersion, s.cs.Version, s.cs.LastHash, s.cs.Hash, treeHas(s.cs), treeVal(s.cs), ivHas(s.cs.Delivered), ivVal(s.cs.Delivered), ivVersion(s.cs.Delivered), ivVer(s.cs.Delivered), ivKept(s.cs.Delivered), vHas(s), vVal(s), bHas(s), bVal(s), sessOpen(s), verVal(s.cs)
+//@   ensures !sessOpen(s) && wfState(s)                                                                                          // C09.commit-clears
+//@   ensures forall k string :: bHas(s)[k] == old(bHas(s))[k] && (bHas(s)[k] ==> bVal(s)[k] == old(bVal(s))[k])                    // C09.commit-persists
+//@   ensures forall k string :: !has(kvmap(s.cache), k)                                                                           // C09.commit-clears
+//@   ensures version == s.cs.Version && s.cs.Version == old(s.cs.Version) + 1                                                     // C09.commit-version
+//@   ensures forall k string :: verVal(s.cs)[version][k] == (bHas(s)[k] ? bVal(s)[k] : bytes_nil())                               // C09.commit-version
+//@   ensures forall v int :: v != version ==> verVal(s.cs)[v] == old(verVal(s.cs))[v]                                             // C09.versions-immutable
